@@ -135,10 +135,10 @@ def write_coqproject():
 
 def make(targets=None, timeout=3000):
     """Full .vo build (never -vos). targets: list of .vo paths relative to coq/, or None = all."""
-    cmd = ["timeout", str(timeout), "make", "-k", "-j" + JOBS]
-    if targets:
-        cmd += targets
-    rc, out = sh(cmd, cwd=COQ, timeout=timeout + 60)
+    # every coqc is capped at 20 GB of address space: a runaway proof fails instead of
+    # exhausting the machine (the largest legitimate file here needs < 4 GB)
+    cmd = "ulimit -v 20000000; exec timeout %d make -k -j%s %s" % (timeout, JOBS, " ".join(targets or []))
+    rc, out = sh(["bash", "-c", cmd], cwd=COQ, timeout=timeout + 60)
     return rc, out
 
 
